@@ -61,9 +61,16 @@ var arithJustified = map[string]string{
 // every path to it: +1 the implied upper bound fits (2^63-1, or 2^63 when the only use is an
 // immediate negation), -1 it does not, 0 no constant bound applies (other arguments are tried).
 func convertBoundExact(cv *ssa.Convert) (int, string) {
+	v, why, _ := convertBoundTight(cv)
+	return v, why
+}
+
+// convertBoundTight: as convertBoundExact; the third result says the bound equals the limit of the target exactly
+// (no representable value is refused).
+func convertBoundTight(cv *ssa.Convert) (int, string, bool) {
 	from, to := basicName(cv.X.Type()), basicName(cv.Type())
 	if !((from == "uint64" || from == "uint") && (to == "int64" || to == "int")) {
-		return 0, ""
+		return 0, "", false
 	}
 	path := AccessPath(cv.X)
 	var ub *big.Int
@@ -106,7 +113,7 @@ func convertBoundExact(cv *ssa.Convert) (int, string) {
 		}
 	}
 	if ub == nil {
-		return 0, ""
+		return 0, "", false
 	}
 	limit := new(big.Int).SetUint64(1<<63 - 1)
 	what := "2^63-1"
@@ -117,9 +124,9 @@ func convertBoundExact(cv *ssa.Convert) (int, string) {
 		}
 	}
 	if ub.Cmp(limit) <= 0 {
-		return 1, fmt.Sprintf("the dominating comparisons bound the operand by %s <= %s", ub, what)
+		return 1, fmt.Sprintf("the dominating comparisons bound the operand by %s <= %s", ub, what), ub.Cmp(limit) == 0
 	}
-	return -1, fmt.Sprintf("the dominating comparisons only bound the operand by %s, which exceeds %s: the conversion wraps to a value of the other sign with a nil error", ub, what)
+	return -1, fmt.Sprintf("the dominating comparisons only bound the operand by %s, which exceeds %s: the conversion wraps to a value of the other sign with a nil error", ub, what), false
 }
 
 // exprFP renders the expression tree of v (field names, callees, operators, constants) so that a
@@ -262,8 +269,10 @@ func ruleArithGuard(c *Ctx) []Obligation {
 				if seenM[base] > 1 {
 					con = fmt.Sprintf("%s #%d", base, seenM[base])
 				}
-				verdict, why := convertBoundExact(cv)
+				verdict, why, tight := convertBoundTight(cv)
 				switch {
+				case verdict > 0 && !tight && c.FnName(fn) == "yang.(Number).Int":
+					obs = append(obs, bad(R, con, c.InstrPos(in), why+"; but the checked conversion itself refuses magnitudes up to the limit that int64 does hold (MinInt64 / MaxInt64 are values, not overflows)"))
 				case verdict > 0:
 					obs = append(obs, ok(R, con, c.InstrPos(in), why))
 				case verdict < 0:
@@ -368,8 +377,10 @@ func ruleArithGuard(c *Ctx) []Obligation {
 			// Sign-changing 64-bit conversions bounded by constants are decided exactly: the
 			// bound the dominating comparisons give must fit the target type.
 			if cv, isConv := in.(*ssa.Convert); isConv {
-				if verdict, why := convertBoundExact(cv); verdict != 0 {
-					if verdict > 0 {
+				if verdict, why, tight := convertBoundTight(cv); verdict != 0 {
+					if verdict > 0 && !tight && c.FnName(fn) == "yang.(Number).Int" {
+						obs = append(obs, bad(R, con, pos, why+"; but the checked conversion itself refuses magnitudes up to the limit that int64 does hold (MinInt64 / MaxInt64 are values, not overflows)"))
+					} else if verdict > 0 {
 						obs = append(obs, ok(R, con, pos, why))
 					} else {
 						obs = append(obs, bad(R, con, pos, why))
